@@ -37,6 +37,7 @@ import (
 	"net/netip"
 	"os"
 	"path/filepath"
+	"runtime"
 	"strings"
 	"sync"
 	"sync/atomic"
@@ -82,6 +83,8 @@ const (
 var (
 	violationSeen atomic.Bool  // a violation was reported by an earlier case of this process
 	gaveUp        atomic.Value // string: an earlier case ran into the wait bound; nothing after it is trustworthy
+	passedCases   sync.Map     // canonical case -> struct{}: cases that passed in this process
+	failedCases   sync.Map     // canonical case -> failure text: cases that violated the property in this process
 )
 
 func admitTimeout() time.Duration {
@@ -108,6 +111,7 @@ func TestMain(m *testing.M) {
 		"engine: a cancelled query whose worker is blocked in a read keeps executing until the read returns (the worker cannot be interrupted), so cancel is always followed by releasing the FIFO before the next event; what the slot does between cancel and read return is not asserted",
 		"a query that is started beyond the limit with an already cancelled context or that would fail after admission may be answered with 'too many requests' or with an error; it must not execute",
 		"all engine queries of a burst have the same attributes (sip) and LowMem=true, so the QueryRunner's unsynchronised per-run fields (query, keepAlive) hold equal values whichever Run wrote them last",
+		"verdicts are memoised per process for rapid's minimisation only: once a violation was found, a case that already passed is not run again and a case that already violated the property fails with its recorded text (rapid demands identical messages from re-runs; its inner minimisation loops are not time-bounded); a replay from a fail file evaluates the case afresh",
 		"contents of results are not compared (C08/C11/C15); a released, uncancelled good query only has to return its rows, otherwise the run is INCONCLUSIVE (harness assumption broken)")
 	_, _ = logging.Init(logging.LevelError, logging.EncodingLogfmt, logging.WithOutput(io.Discard), logging.WithErrorOutput(io.Discard))
 	engine.VerifSetNumProcessingUnits(2)
@@ -1024,28 +1028,47 @@ func check(t *rapid.T, backend string) {
 	if m, _ := gaveUp.Load().(string); m != "" {
 		t.Fatalf("INCONCLUSIVE[C31 %s: an earlier case did not make progress: %s]", backend, m)
 	}
-	t0 := time.Now()
-	b, v := runCase(c)
 	canon, _ := json.Marshal(c)
-	if os.Getenv("C31_DEBUG") != "" {
-		fmt.Fprintf(os.Stderr, "C31_DEBUG %v %s -> %+v\n", time.Since(t0).Round(time.Millisecond), canon, v)
+	if _, ok := passedCases.Load(string(canon)); ok && violationSeen.Load() {
+		// rapid is minimising a violation and proposes a case that already passed in this process (its inner
+		// minimisation loops map hundreds of attempts onto the same few cases and are not time-bounded)
+		return
 	}
-	if v != nil {
-		hist := ""
-		if b != nil {
-			hist = "\nhistory:\n  " + strings.Join(b.hist, "\n  ")
+	// A violating case is evaluated once per process: rapid re-runs it (flakiness check, every accepted shrink
+	// step, final output) and insists on an identical message, which a history with an "either" outcome
+	// (handoff) could not guarantee. A replay from a fail file is a new process and evaluates it afresh.
+	var failure string
+	var b *burst
+	if m, ok := failedCases.Load(string(canon)); ok {
+		failure = m.(string)
+	} else {
+		t0 := time.Now()
+		var v *verdict
+		b, v = runCase(c)
+		if os.Getenv("C31_DEBUG") != "" {
+			fds, _ := os.ReadDir("/proc/self/fd")
+			fmt.Fprintf(os.Stderr, "C31_DEBUG %v goroutines=%d fds=%d %s -> %+v\n", time.Since(t0).Round(time.Millisecond), runtime.NumGoroutine(), len(fds), canon, v)
 		}
-		if v.hung {
-			gaveUp.Store(v.msg)
-		}
-		if !v.inconclusive {
+		if v != nil {
+			hist := ""
+			if b != nil {
+				hist = "\nhistory:\n  " + strings.Join(b.hist, "\n  ")
+			}
+			if v.hung {
+				gaveUp.Store(v.msg)
+			}
+			if v.inconclusive {
+				t.Fatalf("INCONCLUSIVE[C31 %s: %s]\ncase: %s%s", backend, v.msg, canon, hist)
+			}
 			violationSeen.Store(true)
+			failure = fmt.Sprintf("%s\ncase: %s%s", evid.Sig(v.sig, "%s (limit %d): %s", backend, c.L, v.msg), canon, hist)
+			failedCases.Store(string(canon), failure)
 		}
-		if v.inconclusive {
-			t.Fatalf("INCONCLUSIVE[C31 %s: %s]\ncase: %s%s", backend, v.msg, canon, hist)
-		}
-		t.Fatalf("%s\ncase: %s%s", evid.Sig(v.sig, "%s (limit %d): %s", backend, c.L, v.msg), canon, hist)
 	}
+	if failure != "" {
+		t.Fatalf("%s", failure)
+	}
+	passedCases.Store(string(canon), struct{}{})
 	nt := b.burstRejected > 0 && b.burstFailed > 0 && b.burstCancelled > 0
 	classes := append(b.classes, "backend:"+backend, fmt.Sprintf("L=%d", c.L))
 	if b.burstRejected > 0 {
